@@ -521,8 +521,8 @@ func (r *run) freeAct(rng *rand.Rand) {
 	}
 	var opts []opt
 	drv, g := r.e.find("drv"), r.n.cur()
-	if drv != nil {
-		opts = append(opts, opt{"drv", drv})
+	for _, w := range r.e.findAll("drv") {
+		opts = append(opts, opt{"drv", w})
 	}
 	if w := r.e.find("rd"); w != nil {
 		if strings.HasPrefix(w.key, "notify") {
